@@ -189,6 +189,10 @@ def run(ctx, rep):
                 is_file = True
         rep.check("C14.h", f"reuse-only-exact-size/{n}", eq_size, where=where(b, bb), what="an existing destination file is offered for block reuse only if its length EQUALS the snapshot's file size" if eq_size else
                   "an existing destination file is offered for reuse without an exact length match: a longer file whose prefix matches is accepted as restored and keeps its tail")
+        ev = only_via(b, bb, lambda x: x[0] == "bin" and x[1] == "Eq" and "Metadata::len" in repr(x), True) or \
+            only_via(b, bb, lambda x: x[0] == "bin" and x[1] == "Ne" and "Metadata::len" in repr(x), False)
+        rep.check("C14.h", f"reuse-only-exact-size/{n}/every-path", ev, where=where(b, bb), what="every path that opens the existing file for reuse has seen `len == size` hold" if ev else
+                  "the existing file can be opened for reuse on a path where `len == size` did not hold")
         rep.check("C14.h", f"reuse-only-regular-file/{n}", is_file, where=where(b, bb), what="... and only if it is a regular file (symlink_metadata().is_file())")
     # ---- C14.g -------------------------------------------------------------------------------------
     AF = prog.find1(r"^rustic_core::commands::restore::RestorePlan::add_file$")
